@@ -63,7 +63,8 @@ def _str_backend(i, K):
             add_escaped=uncps(K["add"]),
             filter_chars=uncps(K["filt"]),
             str_quote=chr(K["quote"]) if K["quote"] >= 0 else "",
-            str_quote_pattern=None,
+            str_quote_pattern=re.compile(r"^.*\s") if K.get("cq") else None,
+            str_quote_pattern_negation=False,
         )
         _BACKENDS[key] = type(f"StrBackend{i}", (TextQueryTestBackend,), attrs)()
     return _BACKENDS[key]
